@@ -37,7 +37,7 @@ Definition bnot (sg : bool) (w x : Z) := norm sg w (Z.lnot x).
 
 (* detail::mask<T>(Bits): Bits >= 8*sizeof(T) ? ~T(0) : (T(1) << Bits) - T(1)   -- Bits is itself a T *)
 Definition mask_T (sg : bool) (w bits : Z) : Z := if w <=? bits then norm sg w (-1) else norm sg w (2 ^ bits - 1).
-(* detail::mask(int Bits) as called by bitfieldExtract, then converted to T *)
+(* detail::mask(int Bits): the call bitfieldExtract made before fix 'bitfieldExtract computed its mask in int' (kept for the record of that finding) *)
 Definition mask_int (bits : Z) : Z := if 32 <=? bits then -1 else norm true 32 (2 ^ bits - 1).
 
 (* the constants 0x5555..., 0x3333..., ... converted to T *)
@@ -69,8 +69,8 @@ Definition findMSB (sg : bool) (w x : Z) : Z :=
   let y := fold_left (msb_step sg w) [(1, 8); (2, 8); (4, 8); (8, 16); (16, 32); (32, 64)] x in
   w - 1 - bitCount sg w (bnot sg w y).
 
-(* bitfieldExtract: (Value >> T(Offset)) & T(mask(Bits))      bitfieldInsert: Mask = mask(T(Bits)) << Offset *)
-Definition bitfieldExtract (sg : bool) (w v off bits : Z) : Z := band sg w (shr v off) (norm sg w (mask_int bits)).
+(* bitfieldExtract: (Value >> T(Offset)) & T(mask(UT(Bits))), UT the unsigned counterpart of T      bitfieldInsert: Mask = mask(T(Bits)) << Offset *)
+Definition bitfieldExtract (sg : bool) (w v off bits : Z) : Z := band sg w (shr v off) (norm sg w (mask_T false w bits)).
 Definition bitfieldInsert (sg : bool) (w base ins off bits : Z) : Z :=
   let mk := shl sg w (mask_T sg w bits) off in
   bor sg w (band sg w base (bnot sg w mk)) (band sg w (shl sg w ins off) mk).
